@@ -163,7 +163,35 @@ pub fn compare(engine: &EngineRows, reference: &RefResult, modes: &[ColMode]) ->
             // multiset of sort keys must equal the reference window's
             let keyf = |r: &Vec<V>| reference.order_cols.iter().map(|(i, _)| r[*i].canon_numeric()).collect::<Vec<_>>().join("|");
             let mut a: Vec<String> = engine.rows.iter().map(keyf).collect();
-            let mut b: Vec<String> = reference.rows.iter().map(keyf).collect();
+            // under the Integer-before-equal-Float deviation the window is cut from a
+            // differently ordered sequence: recompute the reference window with that order
+            let ref_window: Vec<Vec<V>> = if INT_FIRST_ON_NUMERIC_TIE.with(|c| c.get()) {
+                let mut all = reference.pre_window.clone();
+                all.sort_by(|x, y| {
+                    for (i, desc) in &reference.order_cols {
+                        let mut c = order_cmp(&x[*i], &y[*i]);
+                        if c == Ordering::Equal {
+                            c = match (&x[*i], &y[*i]) {
+                                (V::Int(_), V::Float(_)) => Ordering::Less,
+                                (V::Float(_), V::Int(_)) => Ordering::Greater,
+                                _ => c,
+                            };
+                        }
+                        let c = if *desc { c.reverse() } else { c };
+                        if c != Ordering::Equal {
+                            return c;
+                        }
+                    }
+                    Ordering::Equal
+                });
+                let n = all.len();
+                let lo = (reference.skip.unwrap_or(0) as usize).min(n);
+                let hi = lo.saturating_add(reference.limit.map(|l| l as usize).unwrap_or(usize::MAX)).min(n);
+                all[lo..hi].to_vec()
+            } else {
+                reference.rows.clone()
+            };
+            let mut b: Vec<String> = ref_window.iter().map(keyf).collect();
             a.sort();
             b.sort();
             if a != b {
